@@ -170,7 +170,7 @@ def render_cfg(template_path, out_path, consts):
 
 
 def tlc(spec_dir, module, cfg, consts=None, workers=8, timeout=600, edges=True, simulate=None, depth=None,
-        seed=None, extra=(), heap="8g", keep_out=False, dump_trace=True, edge_limit=None):
+        seed=None, extra=(), heap="8g", keep_out=False, dump_trace=True, edge_limit=None, jvm=()):
     """Run TLC on spec_dir/module.tla with spec_dir/cfg(.in) in a scratch copy.  Lines printed by the
     spec as "EDGE {json}" / "INIT {json}" are collected (the labelled state graph)."""
     work = scratch("tlc")
@@ -191,7 +191,7 @@ def tlc(spec_dir, module, cfg, consts=None, workers=8, timeout=600, edges=True, 
     cfg_dst = os.path.join(work, module + ".cfg")
     render_cfg(cfg_src, cfg_dst, consts or {})
     tracefile = os.path.join(work, "cex.json")
-    cmd = ["java", "-XX:+UseParallelGC", "-Xmx" + heap, "-Xss64m", "-cp", TLA_JAR, "tlc2.TLC",
+    cmd = ["java", "-XX:+UseParallelGC", "-Xmx" + heap, "-Xss64m"] + list(jvm) + ["-cp", TLA_JAR, "tlc2.TLC",
            "-workers", str(workers), "-metadir", os.path.join(work, "md"), "-config", cfg_dst, "-noGenerateSpecTE"]
     if dump_trace:
         cmd += ["-dumpTrace", "json", tracefile]
